@@ -260,6 +260,12 @@ def _s10(ctx):
         fail_closed(ctx, fx, cls)
         cs = [c for c in fx.conns if c["guards"]]
         ctx.ob("S10", STREAM, cls, "selected connect:present", len(cs) == 1, f"{len(cs)} guarded connects", 0)
+        # the select can name every port: its declared width holds 0..n-1 for every port count (evaluated for n = 1..17)
+        d = fx.decl.get("self.sel")
+        short_ = [n_ for n_ in range(1, 18) if d is None or (q.signal_values(d[1], {"n": n_}) or 0) < n_]
+        ctx.ob("S10", STREAM, cls, "sel is wide enough for every port index 0..n-1", not short_,
+               "" if not short_ else f"self.sel = {norm(d[1]) if d else '?'} cannot hold the index of the last port for n = {short_[:6]}: tokens meant for "
+                                     f"port n-1 go to another port", d[1] if d else 0)
         for c in cs:
             src, dst = norm(c["conn"].src), norm(c["conn"].dst)
             arr, single = (src, dst) if fwd else (dst, src)
